@@ -171,7 +171,18 @@ class StmtMixin:
         if not hints or self.spec_mode or self.frame is not self.frames[0]:
             return
         rel = (getattr(node, 'lineno', 0) or 0) - (self.frame.finfo.lineno or 0)
-        for n_, text in enumerate(hints.get(rel, ())):
+        todo = list(hints.get(rel, ()))
+        skeys = [k for k in hints if isinstance(k, str)]
+        if skeys and self.lang == 'py' and not isinstance(node, (ast.For, ast.While, ast.If)):
+            try:
+                src = ast.unparse(node)
+            except Exception:       # noqa: not printable: no textual hint can bind to it
+                src = None
+            if src is not None:
+                for k in skeys:
+                    if src.startswith(k):
+                        todo += list(hints[k])
+        for n_, text in enumerate(todo):
             pure = text.startswith('pure:')
             if pure:
                 text = text[5:]
